@@ -59,7 +59,8 @@ def grammar_sequence(seq):
 def _rt_batch(args):
     lo, hi, full = args
     fails = []
-    texts = ["xy", "x\ny", "a b\n", "\ttab", "é"]
+    from bounded.common import ODD_TEXTS
+    texts = ["xy", "x\ny", "a b\n", "\ttab", "é"] + ODD_TEXTS
     for i, d in list(enumerate(R.all_dicts(full)))[lo:hi]:
         r = roundtrip([(texts[i % len(texts)], d)])
         if r:
